@@ -34,6 +34,8 @@ Cases (`<label>` names the concrete Rust type on the harness side and is ignored
          | `err col n <class> <path>` | `err TooManyValues`
   `batch <vec|tuple|iter> | cols || cols … | vals || vals …`  a BATCH bound through RawBatchValuesAdapter (one context per
        statement) → `ok n [count cells digest]…` | `err CountsMismatch` | `err stmt i <bind error>`  (`.` = no statements / rows)
+  `sbatch <vec|tuple> | <P|Q> cols || … | vals || …`  Session::batch on a mock cluster (P prepared, Q unprepared) → as `batch`
+  `squery | cols | vals`  Session::query_unpaged with values → `ok-unprepared` | `ok [count cells digest]` | `err …`
   `frame <hex>`  new_from_frame → `ok count=… cells=… rest=<unread> <digest>` | `err`
   `bind <path> n…` rows of ~65535 values through from_serializable (slice_i32 / slice_opt / vec_str / map), a
        RowWriter used directly (writer), append_serialize_row (append a b c / mixed n k), add_value (add n)
@@ -512,6 +514,49 @@ def runBatch (case : String) : String :=
     | _, _ => "bad-case"
   | _ => "bad-case"
 
+-- `sbatch <carrier> | <P|Q> cols || … | vals || …`: Session::batch
+open ScyllaVerif.C17Bind in
+def runSBatch (case : String) : String :=
+  match segs case with
+  | [_, sseg, rseg] =>
+    let groups (seg : String) : List String :=
+      if seg.trimAscii.toString == "." then [] else (seg.splitOn " || ").map (fun s => s.trimAscii.toString)
+    let stmts := (groups sseg).mapM fun g =>
+      match words g with
+      | k :: rest =>
+        let cols := (splitSemi (" ".intercalate rest)).mapM parseBindCol
+        if k == "P" then cols.map BStmt.prepared else if k == "Q" then cols.map BStmt.query else none
+      | [] => none
+    let rows := (groups rseg).mapM fun g => (splitSemi g).mapM fun s => match words s with
+      | _ref :: rest => valOf (" ".intercalate rest)
+      | _ => none
+    match stmts, rows with
+    | some stmts, some rows =>
+      match sessionBatch stmts rows with
+      | .error .countsMismatch => "err CountsMismatch"
+      | .error (.stmt i e) => s!"err stmt {i} {bindErrStr e}"
+      | .ok svs => s!"ok {svs.length}" ++ String.join (svs.map fun sv => s!" [{sv.count} {cellsStr sv.bytes} {digest sv.bytes}]")
+    | _, _ => "bad-case"
+  | _ => "bad-case"
+
+-- `squery | cols | vals`: Session::query_unpaged (no values: sent unprepared; else PREPARE, bind, EXECUTE)
+open ScyllaVerif.C17Bind in
+def runSQuery (case : String) : String :=
+  match segs case with
+  | [_, cseg, vseg] =>
+    let cols := (splitSemi cseg).mapM parseBindCol
+    let vals := (splitSemi vseg).mapM fun s => match words s with
+      | _ref :: rest => valOf (" ".intercalate rest)
+      | _ => none
+    match cols, vals with
+    | some cols, some vals =>
+      if vals.isEmpty then "ok-unprepared"
+      else match fromSerializable (.seq vals) cols with
+        | .error e => bindErrStr e
+        | .ok sv => s!"ok [{sv.count} {cellsStr sv.bytes} {digest sv.bytes}]"
+    | _, _ => "bad-case"
+  | _ => "bad-case"
+
 open ScyllaVerif.C17Bind in
 def runFrame (toks : List String) : String :=
   match toks with
@@ -668,6 +713,8 @@ def run (case impl : String) : String :=
   | some "deserrow" => runDeserRow case impl.trimAscii.toString
   | some "bindrow" => runBindRow case
   | some "batch" => runBatch case
+  | some "sbatch" => runSBatch case
+  | some "squery" => runSQuery case
   | some "frame" => runFrame (words case).tail
   | some "rows" =>
     match segs case with
